@@ -34,3 +34,11 @@ Definition allowed_class_writes : list string :=
   required_class_writes ++
   ["portfolio.account:__new__:cls._margin:0"; "portfolio.account:__new__:cls.margin:0";
    "portfolio.account:_get_or_create_pos:del(self.__class__._margin):2"; "portfolio.account:_get_or_create_pos:setattr(self.__class__):2"].
+
+(* the front-end validator chain Model/Validators.v assumes: the position validator (registered per instrument type, so it runs first), then
+   price, is-trading, cash, self-trade, each under its own switch (Gen/ValidatorChain.v is regenerated from the mods' start_up) *)
+Definition expected_risk_chain : list (string * string) :=
+  [("validate_price", "PriceValidator"); ("validate_is_trading", "IsTradingValidator"); ("validate_cash", "CashValidator");
+   ("validate_self_trade", "SelfTradeValidator")].
+Definition expected_position_registrations : list (string * string) :=
+  [("validate_future_position", "INSTRUMENT_TYPE.FUTURE"); ("validate_stock_position", "ins_type")].
